@@ -78,24 +78,18 @@ func init() {
 			if r.height > endH {
 				ectx, _ = ctx.PrevCtx(endH)
 			}
-			listed, _ := nk.GetValidatorsByChain(sctx, chain)
-			elig, n1 := 0, false
-			for _, a := range listed {
-				v, ok := nk.GetValidator(ectx, a)
-				if ok && !v.Jailed && pc.NodeHasChain(chain, v) && int64(len(v.Chains)) <= nk.MaxChains(sctx) {
-					elig++
-					if a.Equals(caddr("N1")) {
-						n1 = true
-					}
-				}
+			// session membership: the session the protocol defines for this header (generated without any cache;
+			// node selection itself is the subject of C33)
+			bh, herr := sctx.BlockHash(pk.Codec(), sctx.BlockHeight())
+			if herr != nil {
+				return false, "no block hash for the session height"
 			}
-			if elig < int(pk.SessionNodeCount(sctx)) {
-				return false, "not enough eligible nodes for a session"
+			hdr := pc.SessionHeader{ApplicationPubKey: rawPub(app), Chain: chain, SessionBlockHeight: s}
+			sess, serr := pc.NewSession(sctx, ectx, nk, hdr, hex.EncodeToString(bh), int(pk.SessionNodeCount(sctx)))
+			if serr != nil {
+				return false, "no session can be generated (" + serr.Error() + ")"
 			}
-			if int64(elig) > pk.SessionNodeCount(sctx) {
-				return false, "?" // more candidates than seats: membership depends on the selection (not used by the menu)
-			}
-			if !n1 {
+			if !sess.SessionNodes.Contains(caddr("N1")) {
 				return false, "servicer not in the session"
 			}
 			return true, ""
@@ -185,7 +179,7 @@ func init() {
 	register(&Check{ID: "C35", QuickBud: 150 * time.Second, ThorBud: 30 * time.Minute,
 		Run: func(c *ev.Ctx) {
 			c.Rule = "On the real application (this process is servicer N1; relays are executed against a local stub chain) every chain state reached by a menu of application unstake/restake, node jail/unjail/unstake/edit and empty blocks up to the depth is probed through the real HandleRelay with: a well-formed relay, the identical relay again, 19 single-field alterations (token signature/version/client key/app key, client signature, request hash, payload, servicer key, chain, session height, entropy), relays whose fields are valid but unauthorized (other servicer, chain not staked by the app, chain not hosted, unstaked application key), sessions -3..+2 around the current one and client heights at and beyond the sync allowance. A relay must be served, recorded exactly once and answered with a verifying servicer signature iff a reference evaluation of the state says it is authorized; otherwise it must be rejected and the stored evidence unchanged"
-			c.Assume("session node count = number of nodes staked for the chain, so session membership equals eligibility (no dependence on the selection hash)")
+			c.Assume("session membership in the reference comes from pc.NewSession evaluated without caches (node selection itself is decided by C33); two environments: two seats for two nodes, and one seat for two nodes (the node is then often eligible but not selected)")
 			env := defaultEnv()
 			env.SessionNodeCount = 2
 			env.MaxValidators = 3
@@ -197,6 +191,11 @@ func init() {
 			if c.Tier == "thorough" {
 				depth = 5
 			}
+			// second environment: one seat per session and two candidate nodes, so that in about half of the sessions
+			// this node is staked, eligible and NOT in the session
+			env1 := env
+			env1.SessionNodeCount = 1
+			cfg1 := &chainCfg{Name: "relays-one-seat", Env: env1, Menu: menu[:5], Depth: depth, Want: []string{"c35:relays"}}
 			cfg := &chainCfg{Name: "relays", Env: env, Menu: menu, Depth: depth, Want: []string{"c35:relays"}}
 			cfg.OnResult = func(c *ev.Ctx, hist []int, job Job, res JobResult) {
 				if n, ok := res.Obs["evals"].(float64); ok {
@@ -212,6 +211,9 @@ func init() {
 			}
 			st := chainExplore(c, cfg)
 			c.BoundDone = chainDone(c, cfg, st)
+			cfg1.OnResult = cfg.OnResult
+			st1 := chainExplore(c, cfg1)
+			c.BoundDone += chainDone(c, cfg1, st1)
 			getPool().Close()
 		},
 		Replay: chainReplayFn,
